@@ -34,10 +34,52 @@ DECKS = [
     # 5 LIKE n BUT with TRCL
     ('like', 'like deck\n1 1 -2.7 1 -2 imp:n=1\n2 like 1 but trcl=(2 0 0) mat=2 rho=-1.0\n3 0 -1 imp:n=1\n4 0 3 imp:n=0\n5 0 2 -3 #2 imp:n=1\n\n'
              '1 px -1\n2 px 1\n3 px 5\n\nm1 13027 1\nm2 8016 1\n', []),
+    # volumes that become empty only after de-duplication (the pruning pass really removes something):
+    # a zero-thickness layer between two copies of a plane, inside a union
+    ('sliver', 'sliver deck\n1 1 -2.7 (1 -2 4 -5):-3 imp:n=1\n2 0 #1 -6 imp:n=1\n3 0 6 imp:n=0\n\n1 px 5\n2 px 5\n3 so 2\n4 py -1\n5 py 1\n6 so 9\n\nm1 13027 1\n', []),
+    # a universe whose cut plane is shifted onto the wall of its container
+    ('wallfill', 'wall fill deck\n1 0 -1 fill=1 (1 0 0) imp:n=1\n2 0 1 -2 imp:n=1\n3 0 2 imp:n=0\n11 1 -2.7 -11 u=1 imp:n=1\n12 2 -1.0 11 u=1 imp:n=1\n\n'
+                 '1 px 3\n2 px 8\n11 px 2\n\nm1 13027 1\nm2 8016 1\n', []),
+    # the same with a two-surface container and other numbers
+    ('wallfill2', 'wall fill deck two\n4 0 -3 5 fill=2 (0 1 0) imp:n=1\n5 0 3 imp:n=1\n6 0 -5 imp:n=0\n7 1 -2.7 -7 u=2 imp:n=1\n8 2 -1.0 7 -8 u=2 imp:n=1\n'
+                  '9 0 8 u=2 imp:n=1\n\n3 py 4\n5 py -6\n7 py 3\n8 py 9\n\nm1 13027 1\nm2 8016 1\n', []),
     # 6 a deck that raises (unknown surface type)
     ('raises', 'bad deck\n1 0 -1 imp:n=1\n2 0 1 imp:n=0\n\n1 qq 5\n\n', []),
 ]
 OPTS = [[], ['--skip-deduplication'], ['--always-inline-filling', '--always-inline-filled']]
+FIXED = len(DECKS)
+
+
+def add_generated_decks(chk, seed, want_prune=3, want_univ=3):
+    """Extend the pool with generated decks: Boolean decks in which the pruning pass really removes volumes
+    (volumes that become empty only after de-duplication) and universe decks (fill / transformation caches)."""
+    import random
+    from .. import adeck, pipeline
+    from . import common_bool, common_univ
+    rng = random.Random(seed)
+    scratch = core.Check('C18', clean=False)
+    bools = common_bool.generate(scratch, False, seed + 18, nsim_quick=400)
+    univs = common_univ.generate(scratch, False, seed + 18, nquick=200)
+    chk.cov['states'] += scratch.cov['states']
+    chk.cov['transitions'] += scratch.cov['transitions']
+    rng.shuffle(bools)
+    rng.shuffle(univs)
+    picked = 0
+    for d in bools[:250]:
+        d = adeck.normalise(d)
+        d['pts'] = []
+        rec = pipeline.run_traced({'tid': 0, 'deck': d, 'opts': []})
+        if rec['result'] != 'ok':
+            continue
+        nv = {s['stage']: len(s['vols']) for s in rec['stages'] if s['kind'] == 'vols'}
+        if nv.get('pruned', 0) < nv.get('dedup', nv.get('converted', 0)):
+            DECKS.append(('prune%d' % picked, rec['text'], []))
+            picked += 1
+            if picked >= want_prune:
+                break
+    for i, d in enumerate(univs[:want_univ]):
+        d = adeck.simple_materials(adeck.normalise(d))
+        DECKS.append(('univ%d' % i, adeck.concretise(d), []))
 
 
 def digest(res):
@@ -69,6 +111,9 @@ def replay_chunk(chunk):
 
 def fresh_table(seed):
     """Outputs of every (deck, options) call, each in a fresh interpreter with the given hash seed."""
+    pool_file = os.path.join(tlc.scratch_dir('c18pool'), 'pool.json')
+    with open(pool_file, 'w') as f:
+        json.dump(DECKS, f)
     code = ('import sys, json\nsys.path.insert(0, %r)\nfrom vt4.checks import c18\n'
             'print(json.dumps({"%%d,%%d" %% (d, o): c18.call(d, o)[0] for d in range(1, %d) for o in range(1, %d)}))\n'
             % (os.path.join(core.VERIF, 'harness'), len(DECKS) + 1, len(OPTS) + 1))
@@ -76,8 +121,9 @@ def fresh_table(seed):
     procs = []
     for d in range(1, len(DECKS) + 1):
         for o in range(1, len(OPTS) + 1):
-            one = ('import sys, json\nsys.path.insert(0, %r)\nfrom vt4.checks import c18\nprint(c18.call(%d, %d)[0])\n'
-                   % (os.path.join(core.VERIF, 'harness'), d, o))
+            one = ('import sys, json\nsys.path.insert(0, %r)\nfrom vt4.checks import c18\n'
+                   'c18.DECKS[:] = [tuple(x) for x in json.load(open(%r))]\nprint(c18.call(%d, %d)[0])\n'
+                   % (os.path.join(core.VERIF, 'harness'), pool_file, d, o))
             env = dict(os.environ, PYTHONHASHSEED=str(seed))
             procs.append(((d, o), subprocess.Popen([sys.executable, '-W', 'ignore', '-c', one], env=env,
                                                     stdout=subprocess.PIPE, stderr=subprocess.PIPE, text=True)))
@@ -86,6 +132,7 @@ def fresh_table(seed):
         if p.returncode != 0:
             raise RuntimeError('fresh process failed: %s' % err[-500:])
         table['%d,%d' % key] = out.strip().splitlines()[-1]
+    shutil.rmtree(os.path.dirname(pool_file), ignore_errors=True)
     return table
 
 
@@ -94,6 +141,12 @@ def main():
     thorough = chk.tier == 'thorough'
     rng = random.Random(chk.seed)
     core.lap('start')
+    try:
+        add_generated_decks(chk, chk.seed)
+    except tlc.TLCFailure as exc:
+        chk.machinery(str(exc))
+        return chk.finish()
+    core.lap('pool of %d decks' % len(DECKS))
     maxlen = 3
     try:
         cfg = ('INIT Init\nNEXT Next\nCONSTANTS NDecks = %d\n NOpts = %d\n MaxLen = %d\nCHECK_DEADLOCK FALSE\n'
@@ -110,7 +163,7 @@ def main():
     if not thorough:
         short = [h for h in hists if len(h) <= 2]
         long_ = [h for h in hists if len(h) > 2]
-        hists = short + rng.sample(long_, min(len(long_), 1200))
+        hists = short + rng.sample(long_, min(len(long_), 1800))
     core.lap('generator')
     seeds = sorted({0, 1, chk.seed if chk.seed not in (0, 1) else 12345})
     try:
